@@ -1,5 +1,7 @@
 """C32 — scope provider selection follows the documented precedence."""
 import itertools
+import json
+import os
 from vt import core
 from vt.main import decide
 from translate import scope_tr
@@ -24,22 +26,63 @@ def configs(chk):
     return cfgs
 
 
+def history_configs(chk):
+    """Sequences of register_scope_providers calls on ONE meta-model (grow, shrink, replace, empty, same), a model loaded after each."""
+    out = []
+    cfile = os.path.join(core.VERIF, "corpus", "C32", "registration_history.json")
+    for j in (json.load(open(cfile)) if os.path.exists(cfile) else []):      # corpus first
+        on = j["rrel_on"]
+        out.append({"steps": j["steps"], "rrel_on": on, "rrel": "^items", "name_a": "x" if on == "A" else "y", "name_b": "x" if on == "B" else "y"})
+    n = 160 if chk.thorough else 48
+    for i in range(n):
+        r = chk.rng.split(("hist", i))
+        steps = [sorted(r.sample(KEYS, r.below(5)))]
+        for _ in range(r.range(1, 3)):
+            prev = steps[-1]
+            how = r.weighted([("shrink", 4), ("grow", 2), ("replace", 3), ("empty", 2), ("same", 1)])
+            if how == "shrink" and prev:
+                nxt = r.sample(prev, r.below(len(prev)))
+                if r.chance(0.5):
+                    nxt = nxt + [r.choice(["*.*", "RefA.*", "*.single"])]     # the less specific key that should now win
+            elif how == "grow":
+                nxt = prev + r.sample(KEYS, 1 + r.below(2))
+            elif how == "empty":
+                nxt = []
+            elif how == "same":
+                nxt = list(prev)
+            else:
+                nxt = r.sample(KEYS, r.below(4))
+            steps.append(sorted(set(nxt)))
+        on = r.weighted([("N", 3), ("A", 1), ("B", 1)])
+        out.append({"steps": steps, "rrel_on": on, "rrel": "^items", "name_a": "x" if on == "A" else "y", "name_b": "x" if on == "B" else "y"})
+    return out
+
+
 def run(chk):
     chk.prove([scope_tr.translate])
     cfgs = configs(chk)
+    hcfgs = history_configs(chk)
     impl = []
-    chunks = [cfgs[i::core.NPROC] for i in range(core.NPROC)]
+    allc = cfgs + hcfgs
+    chunks = [allc[i::core.NPROC] for i in range(core.NPROC)]
     outs = core.run_impl_parallel("c32", [{"configs": ch} for ch in chunks if ch])
     impl_by_idx = {}
     k = 0
     for ci, ch in enumerate([c for c in chunks if c]):
         for j, c in enumerate(ch):
             impl_by_idx[id(c)] = outs[ci][j]
+    # a history configuration is one unit per registration step: keys = that call's keys, history = the earlier calls
+    for h in hcfgs:
+        o = impl_by_idx[id(h)]
+        for i, keys in enumerate(h["steps"]):
+            u = {"keys": keys, "history": h["steps"][:i], "rrel_on": h["rrel_on"], "rrel": h["rrel"], "name_a": h["name_a"], "name_b": h["name_b"]}
+            impl_by_idx[id(u)] = o["steps"][i] if "steps" in o and i < len(o["steps"]) else {"error": o.get("error", "no output for this step")}
+            cfgs.append(u)
     # model: one Coq evaluation per config: the whole pass over the references (select_pass), in the order of REFS
     exprs = []
     index = []
     for c in cfgs:
-        regs = core.coq_list([core.coq_str(k) for k in c["keys"]])
+        regs = "(active_keys %s [])" % core.coq_list([core.coq_list([core.coq_str(k) for k in ks]) for ks in c.get("history", []) + [c["keys"]]])
         refs = []
         for (cls, attr, n) in REFS:
             has_rrel = cls[-1] == c["rrel_on"]
@@ -77,8 +120,11 @@ def run(chk):
                     doc_log.append([doc, cls, attr])
             tgt = {"grammar": "x", "default": "x/y"}.get(doc, "q")
             exp_targets[cls + "." + attr] = tgt if attr == "single" else [tgt] * n
-        key = (tuple(c["keys"]), c["rrel_on"])
+        key = (tuple(c["keys"]), c["rrel_on"], tuple(tuple(h) for h in c.get("history", [])))
         chk.count(key, nontrivial=True)
+        if c.get("history"):
+            stale = set(k for h in c["history"] for k in h) - set(c["keys"])
+            chk.stat("registration history: " + ("earlier keys omitted by the latest call" if stale else "no omitted key"))
         chk.stat("registered_keys=%d" % len([k for k in c["keys"] if k in KEYS]))
         # the rule with the grammar RREL `^items` refers to 'x' (two objects: only the RREL finds the top-level one);
         # the other rule refers to 'y' (unique: the default provider finds x/y); registered providers return q
@@ -125,7 +171,8 @@ def run(chk):
             disagreements.append({"case": {"registered_string": r}, "impl": "accepted" if accepted[r] else "rejected", "model": mv})
     chk.sample({"rrel_string_vs_grammar": RRELS})
     chk.cov["rule"] = ("all %d subsets of the 8 registration keys relevant to rules RefA/RefB (a third with decoy keys), grammar RREL on rule A, on rule B or on neither, "
-                       "single and list attributes; distinct = distinct (key set, RREL placement); plus %d RREL strings registered vs written in the grammar" % (2 ** len(KEYS), len(RRELS)))
+                       "single and list attributes; plus %d sequences of 2-4 register_scope_providers calls on ONE meta-model (shrink / grow / replace / empty / same), a model loaded "
+                       "and compared after every call; distinct = distinct (key set, RREL placement, earlier registrations); plus %d RREL strings registered vs written in the grammar" % (2 ** len(KEYS), len(hcfgs), len(RRELS)))
     chk.cov["exhaustive"] = bool(chk.thorough)
     chk.assumptions += ["translator tools/translate/scope_tr.py (fail-closed ast match of resolve_one_step, register_scope_providers, RuleCrossRef.__init__, create_rrel_scope_provider)",
                         "rrel.parse is an oracle in C32_rrel_string (its agreement with the grammar-embedded RREL syntax is C12/C24)"]
